@@ -19,7 +19,8 @@ MODES = ["T", "N", "A", "R"]
 ENTRIES = ["starttls", "legacy"]
 CAS = ["ca", "noca"]
 # X509_V_ERR_* that OpenSSL must report first for each kind when the CA is configured
-FIRST_ERR = {"wrongname": 62, "partial": 62, "expired": 10, "notyet": 9, "untrusted": 20, "selfsigned": 18, "chainexp": 10}
+FIRST_ERR = {"wrongname": 62, "partial": 62, "expired": 10, "notyet": 9, "untrusted": 20, "selfsigned": 18, "chainexp": 10,
+             "announced": 62}
 VERIFYING = ("valid", "fullwild", "chainok")      # kinds that verify when the CA is configured
 KNOWN_NO_DEADLINE = "C08-tls-start-no-deadline"
 KNOWN_NO_DEADLINE_ENTRY = {
@@ -93,6 +94,13 @@ def extra_cells(thorough):
         "chainexp Q1 legacy ca", "chainexp Q0 starttls ca", "chainexp Q0 legacy noca",
         "expired P0 starttls ca", "expired Q0 legacy ca", "expired P1 legacy ca", "untrusted P1 starttls ca",
         "wrongname Q1 legacy ca",
+        # the server calls itself something else in its stream headers (before and after TLS) and has a perfectly good
+        # certificate for THAT name: the name to verify is the JID's domain, whatever the server announces
+        "announced N starttls ca", "announced N starttls noca", "announced N legacy ca", "announced N legacy noca",
+        "announced R starttls ca", "announced R starttls noca", "announced R legacy ca", "announced R legacy noca",
+        "announced A starttls ca", "announced A starttls noca", "announced A legacy ca", "announced A legacy noca",
+        "valid N starttls ca announce=evil.example.net", "valid N legacy ca announce=evil.example.net",
+        "wrongname N starttls ca announce=xmpp.example.org", "wrongname R starttls+m ca announce=xmpp.example.org",
         # XMPP_CONN_FLAG_MANDATORY_TLS: the failure reactions must not depend on it
         "wrongname N starttls+m ca", "valid N starttls+m ca", "expired R starttls+m ca", "untrusted N legacy+m ca",
         "valid N starttls+m badca", "valid A legacy+m badca",
@@ -133,7 +141,9 @@ def parse(line):
 
 def case_fields(case):
     p = case.split()
-    return {"kind": p[0], "mode": p[1], "entry": p[2], "ca": p[3], "ms": int(p[4]) if len(p) > 4 else 0}
+    opt = p[4] if len(p) > 4 else ""
+    return {"kind": p[0], "mode": p[1], "entry": p[2], "ca": p[3], "ms": int(opt) if opt.isdigit() else 0,
+            "announce": opt[9:] if opt.startswith("announce=") else ("evil.example.net" if p[0] == "announced" else None)}
 
 
 def model_line(case, obs):
@@ -233,7 +243,8 @@ def oracle(case, obs):
         if not trust and vcb != "1":
             bad.append("no verify callback installed although the trust flag is not set")
         if host != "1":
-            bad.append("the reference identity handed to OpenSSL is not the XMPP domain (host=%s)" % host)
+            bad.append("the reference identity handed to OpenSSL is %r, not the domain of the configured JID%s"
+                       % (obs.get("ph", host), " (the server announced from=%r)" % f["announce"] if f.get("announce") else ""))
         if int(hf) != 4:
             bad.append("host flags are %s, not X509_CHECK_FLAG_NO_PARTIAL_WILDCARDS alone" % hf)
     # --- user consent in this run
